@@ -21,12 +21,12 @@ cargo test --offline --lib -j6 2>&1 | grep -E "^test result|FAILED|failed" >> $l
 T1=$(grep -c "^test result: ok. 673 passed" $log)
 echo "== patch + demo: $NAME" >> $log
 git apply $OUT/demo.diff || { echo "demo does not apply"; exit 2; }
-cargo test --offline --lib -j6 $NAME 2>&1 | grep -E "^test result|panicked|FAILED" | head -5 >> $log
+bash -c "$DEMO" 2>&1 | grep -E "^test result|panicked|FAILED" | head -5 >> $log
 T2=$(grep -c "^test result: FAILED" $log)
 echo "== demo only" >> $log
 git apply -R $OUT/patch.diff
-cargo test --offline --lib -j6 $NAME 2>&1 | grep -E "^test result" >> $log
-T3=$(tail -1 $log | grep -c "ok. 1 passed")
+bash -c "$DEMO" 2>&1 | grep -E "^test result" >> $log
+T3=$(tail -1 $log | grep -c "^test result: ok. [1-9]")
 git checkout -q -- . && git clean -qfd -e out -e target
 echo "confirm: tests_pass_with_change=$T1 demo_fails_with_change=$T2 demo_passes_without=$T3"
 cp $OUT/patch.diff $OUT/demo.diff $DST/
